@@ -202,7 +202,8 @@ func c01History(t datarep.Table, idx int, rng *rand.Rand) (int, []evid.Div, erro
 				return nmsg, divs, nil
 			}
 			return nmsg, divs, err
-		} else if len(rs) != 3 || rs[0].Code != 250 || rs[2].Code != 354 {
+		} else if !(len(rs) == 3 || (perRcpt && len(rs) == 4 && rs[3].Code == 250)) || rs[0].Code != 250 || rs[2].Code != 354 {
+			// (a per-recipient backend that reports before it reads is answered at once: a fourth reply)
 			// commands do not resume where the previous message ended
 			divs = append(divs, evid.Div{Prop: "C02", Key: "history:resume:" + between, Msg: fmt.Sprintf("message %d of a connection (mode %d, lmtp %v) after %v: MAIL, RCPT, DATA answered %v - the commands after the previous message were not executed as sent", m, mode, lmtp, hist, codes(rs)),
 				Replay: map[string]interface{}{"engine": "c01-history", "index": idx, "history": hist}})
